@@ -2356,3 +2356,35 @@ def parallel_drives_given(check: Check, repo: Repo, rule: str = "PARALLEL-MEMBER
     ok2 = sk is not None and any(isinstance(c, ast.Call) and call_name(c) == "len" and c.args and unparse(c.args[0]) in (p, "self.visitors") for c in ast.walk(sk))
     check.ob(rule, sk if sk is not None else init, f"ParallelVisitor.__init__: self.skipping = {unparse(sk)[:40] if sk is not None else '?'}", ok2,
              "one slot per given visitor" if ok2 else "not sized by the given visitors")
+
+
+def block_string_charset(check: Check, repo: Repo, rule: str = "BLOCK-CHARSET") -> None:
+    check.rule(
+        rule,
+        "inside a block string every SourceCharacter - every Unicode scalar value, control characters included - is "
+        "content: the test under which Lexer.read_block_string steps over one ordinary character (`position += 1`), "
+        "folded for each code point below U+0080 and the borders of the surrogate gap, is true for all of them (quotes, "
+        "backslash and line terminators are dealt with earlier). The printer relies on it: is_printable_as_block_string "
+        "only refuses U+0000-U+000F, so a description containing ESC (U+001B) is printed raw inside triple quotes - a lexer "
+        "that rejects C0 controls there cannot read the schema back",
+    )
+    mod = repo.mod("language.lexer")
+    fn = repo.func("language.lexer", "Lexer.read_block_string")
+    steps = [i for i in walk_body(fn) if isinstance(i, ast.If) and any(isinstance(s, ast.AugAssign) and unparse(s.target) == "position"
+             and isinstance(s.value, ast.Constant) and s.value.value == 1 for s in i.body) and "char" in unparse(i.test) and "\\r" not in unparse(i.test)]
+    if len(steps) != 1:
+        raise AnalysisError("read_block_string: the single-character step was not found")
+    from sa.tables import inline_locals
+
+    test = inline_locals(steps[0].test, fn, keep={"char"})
+    probes = [chr(c) for c in range(0x80) if chr(c) not in '"\\\r\n'] + ["\x80", "\xff", "퟿", "", "￿"]
+    bad = []
+    for ch in probes:
+        try:
+            ok = bool(Evaluator(repo, mod, {"char": ch}).eval(test))
+        except NotStatic as ex:
+            raise AnalysisError(f"read_block_string: character test is not foldable: {ex}") from ex
+        if not ok:
+            bad.append(f"U+{ord(ch):04X}")
+    check.ob(rule, steps[0], f"read_block_string: `{unparse(steps[0].test)[:60]}` over {len(probes)} code points", not bad,
+             "accepts every scalar value probed" if not bad else f"rejects {bad[:8]}{' ...' if len(bad) > 8 else ''} inside a block string")
